@@ -169,7 +169,7 @@ type leafPolicy int
 
 const (
 	leavesVarsOnly  leafPolicy = iota // every leaf a distinct variable
-	leavesStandard                    // all-var, each single leaf constant, all constant, one literal variant
+	leavesStandard                    // all-var, each single leaf constant, all constant, one literal variant, one repeated variable
 	leavesExhaustVK                   // every var/const assignment
 	leavesThorough                    // standard + repeated variables + each single literal
 )
@@ -222,8 +222,9 @@ func leafVariants(shape string, pol leafPolicy) []string {
 			break
 		}
 	}
+	// one variable in every position of its sort (an operator applied to the same variable twice)
+	add(all('r'))
 	if pol == leavesThorough {
-		add(all('r'))
 		for i := 1; i < n; i++ {
 			b := []byte(all('v'))
 			b[i] = 'l'
@@ -369,7 +370,7 @@ func shapeFamily(maxM int, pol leafPolicy, stress bool, rootSorts string) []stri
 			for _, sh := range ss.B(m) {
 				for i, v := range leafVariants(sh, pol) {
 					add(v)
-					if i == 0 {
+					if i == 0 || aliasEveryVariant {
 						aliases(v)
 					}
 				}
@@ -379,7 +380,7 @@ func shapeFamily(maxM int, pol leafPolicy, stress bool, rootSorts string) []stri
 			for _, sh := range ss.I(m) {
 				for i, v := range leafVariants(sh, pol) {
 					add(v)
-					if i == 0 {
+					if i == 0 || aliasEveryVariant {
 						aliases(v)
 					}
 				}
@@ -403,6 +404,16 @@ func shapeFamily(maxM int, pol leafPolicy, stress bool, rootSorts string) []stri
 // noAliasVariants switches the && / || / & / | spelling variants off (set by the properties for
 // which the spelling is irrelevant: totality, footprint, events, formatting).
 var noAliasVariants bool
+
+// aliasEveryVariant extends the spelling variants from the all-variable variant to every leaf
+// variant (set by the properties where constants and spelling meet: folding).
+var aliasEveryVariant bool
+
+func withAllAliases(f func() []Unit) []Unit {
+	aliasEveryVariant = true
+	defer func() { aliasEveryVariant = false }()
+	return f()
+}
 
 func withoutAliases(f func() []Unit) []Unit {
 	noAliasVariants = true
